@@ -355,6 +355,7 @@ def run(ctx):
     if reader is None:
         r4b.violate("C12|R4b|anchor-missing|reader", "the config-file reader (iterates lines and consults the flag table) was not found")
     else:
+        reader = ctx.inl(reader)          # the line -> argument conversion may sit in private helpers (A11)
         rdu = du_of(reader)
         key_replaces = []
         for bid, t in reader.calls():
@@ -382,6 +383,16 @@ def run(ctx):
                         v = rdu.val_operand(o)
                         if v[0] == "const" and isinstance(v[1], str):
                             consts.add(v[1])
+        # ... or a formatter whose literal pieces carry them: format!("--{}-{}={}", table, key, value)
+        from ..fmtargs import format_parts, FORMAT_FNS
+        for bid, t in reader.calls():
+            if callee_name(t) in FORMAT_FNS:
+                fp = format_parts(rdu, rdu.val_call(t, 0, bid))
+                if fp is not None:
+                    for prt in fp[0]:
+                        if prt[0] == "lit":
+                            consts.add(prt[1])
+                            consts.update(prt[1])
         ok = {"-", "="} <= consts
         r4b.instance({"reader": reader.def_, "join_constants": sorted(consts)}, ok)
         if not ok:
@@ -490,6 +501,13 @@ def _tuple_elem_of_split(du, v, depth=0):
                 inner = du.val_place((inner[1][0], ()))
             if inner[0] == "call" and (inner[1] or "").endswith("split_once"):
                 return idx[0] if idx else None
+        if base[0] == "call" and (base[1] or "").endswith("split_once"):
+            # `if let Some((key, value)) = line.split_once('=')`: ((opt as Some).0).k
+            pos = [i for i, p in enumerate(proj) if isinstance(p, tuple) and p[0] == "d" and p[1] == "Some"]
+            if pos:
+                fs = [p[1] for p in proj[pos[0] + 1:] if isinstance(p, tuple) and p[0] == "f"]
+                if len(fs) >= 2 and fs[0] == 0:
+                    return fs[1]
         if not proj and base != v and base[0] != "place":
             return _tuple_elem_of_split(du, base, depth + 1)
         if idx and base[0] in ("place",):
